@@ -174,8 +174,10 @@ static void sched_child(const void *job, size_t n) {
 	hx_quiesce();
 	ngot[0] = ngot[1] = 0;
 	for (int t = 1; t <= 3; t++) { uint8_t d[2] = {(uint8_t) t, 0}, m[16], f[40]; int ml = rc_build_msg(m, SRC, 0, MSG_SYS_PONG, d, 2); env_push_quiet(f, rc_frame(f, m, (size_t) ml, 1)); }
+	vs_window(1);
 	int r1 = vs_spawn(reader, (void *) 0), r2 = vs_spawn(reader, (void *) 1);
 	vs_join_tid(r1); vs_join_tid(r2); hx_quiesce();
+	vs_window(0);
 	int seen[4] = {0, 0, 0, 0}; uint8_t *m;
 	for (int id = 0; id < 2; id++) for (int i = 0; i < ngot[id]; i++) seen[got_tags[id][i] & 3]++;
 	for (int id = 0; id < 2; id++) if (ngot[id] == 2 && got_tags[id][0] > got_tags[id][1]) res_violation("queue-order: messages are not returned oldest first / bound of 128 with drop-oldest not kept", "reader %d got %d before %d", id, got_tags[id][0], got_tags[id][1]);
